@@ -48,7 +48,7 @@ VARIANTS = {
         features=BASE_FEATURES + ",utf16",
         rustflags="-Zsanitizer=address -Cforce-frame-pointers=yes",
         target="x86_64-unknown-linux-gnu",
-        target_dir="target-asan",
+        target_dir="target-asan16",
     ),
     "tsan": dict(
         toolchain="nightly",
@@ -554,7 +554,9 @@ MIRI_FEATURES = "hooks,re-std,re-pikevm"
 
 
 def miri_wrapper(features=MIRI_FEATURES):
-    return ["cargo", "+nightly", "miri", "run", "--manifest-path", os.path.join(HARNESS, "Cargo.toml"), "--target-dir", os.path.join(BUILD, "target-miri"), "--no-default-features", "--features", features, "--bin", "vrun", "--"]
+    # one target directory per feature set, so that alternating stages do not rebuild each other
+    tdir = "target-miri" if features == MIRI_FEATURES else "target-miri-" + hashlib.sha1(features.encode()).hexdigest()[:8]
+    return ["cargo", "+nightly", "miri", "run", "--manifest-path", os.path.join(HARNESS, "Cargo.toml"), "--target-dir", os.path.join(BUILD, tdir), "--no-default-features", "--features", features, "--bin", "vrun", "--"]
 
 
 def miri_prepare(features=MIRI_FEATURES):
@@ -569,9 +571,9 @@ def miri_prepare(features=MIRI_FEATURES):
     log("miri runner ready in %.1fs" % (time.time() - t0))
 
 
-def run_miri(check, tier, seed, opts, nprocs=NCPU, timeout=3000, miriflags="", crash_property="C06"):
+def run_miri(check, tier, seed, opts, nprocs=NCPU, timeout=3000, miriflags="", crash_property="C06", features=MIRI_FEATURES):
     env = {"CARGO_NET_OFFLINE": "true", "MIRIFLAGS": miriflags}
-    return run_shards("miri", check, tier, seed, opts=opts, nshards=nprocs, timeout=timeout, mem_gb=None, env=env, wrapper=miri_wrapper(), crash_property=crash_property, binary=False)
+    return run_shards("miri", check, tier, seed, opts=opts, nshards=nprocs, timeout=timeout, mem_gb=None, env=env, wrapper=miri_wrapper(features), crash_property=crash_property, binary=False)
 
 
 def tool_summary(name, m):
@@ -625,6 +627,28 @@ def check_c06(tier, seed, replay=None):
     except HarnessError as e:
         merged.notes.append("Miri stage unavailable: %s" % str(e)[:300])
         tools.append(dict(tool="Miri", unavailable=str(e)[:300]))
+    # The UTF-16 / UCS-2 entry points (utf16 build): any u16 slice, any start offset, also between
+    # the halves of a surrogate pair -- natively with debug assertions, under ASan, under Miri.
+    try:
+        build("utf16")
+        u = run_shards("utf16", "c06u16", tier, seed, timeout=3600)
+        for k in list(u.counters.keys()):
+            u.counters["c06u16." + k] = u.counters[k]
+        tools.append(tool_summary("utf16 build natively, crate debug assertions on: find_from_utf16 / find_from_ucs2 on arbitrary u16 text", u))
+        merged.merge(u)
+        build("asan16")
+        asan_env = {"ASAN_OPTIONS": "halt_on_error=1:abort_on_error=1:detect_leaks=1:allocator_may_return_null=1"}
+        a16 = run_shards("asan16", "c06u16", tier, seed, scale=(0.25 if tier == "quick" else 1.0), mem_gb=None, env=asan_env, timeout=3600)
+        tools.append(tool_summary("AddressSanitizer, utf16 build (release profile: the crate's unreachable_unchecked paths are live)", a16))
+        merged.merge(a16)
+        f16 = MIRI_FEATURES + ",utf16"
+        miri_prepare(f16)
+        m16 = run_miri("c06u16", tier, seed, {"max_cases": 40 if tier == "quick" else 600, "budget_s": 60 if tier == "quick" else 2400}, timeout=1500 if tier == "quick" else 14000, features=f16)
+        tools.append(tool_summary("Miri, utf16 build", m16))
+        merged.merge(m16)
+    except HarnessError as e:
+        merged.notes.append("utf16 stages unavailable: %s" % str(e)[:300])
+        tools.append(dict(tool="utf16 stages", unavailable=str(e)[:300]))
     # valgrind memcheck on the plain release build (thorough only)
     if tier == "thorough":
         try:
@@ -638,7 +662,7 @@ def check_c06(tier, seed, replay=None):
             " entry points: find_from, PikeVM, find_from_ascii and PikeVM-ASCII (ASCII haystacks only), replace/replace_all. Monitors: range monitor on every match and capture (then the haystack is sliced with them), caught panics incl. the crate's debug assertions, and the sanitizers listed under coverage.tools (a report kills the runner; the supervisor attributes it to the last announced program)."
             " A case is (program, haystack, start, entry point); non-trivial iff it matched in a haystack with multi-byte characters. Every other check also passes all its matches through the same range monitor.")
     extra = dict(tools=tools, unsafe_entry_points_reached=unsafe_entry_points(merged.counters), ranges_checked=merged.c("ranges_checked"))
-    return finish(pid, tier, seed, merged, rule, ASSUME_COMMON + ["a clean sanitizer run is not memory safety: red-zone tools miss in-bounds-of-another-object accesses, Miri sees only what it executes", "ASCII entry points are driven with ASCII text only (their documented domain); UTF-16/UCS-2 robustness is in C14"], extra_cov=extra, required=["ranges_checked", "hook.bt.bwd.ByteSeq1to4", "hook.pop.GreedyLoop1Char", "hook.pop.NonGreedyLoop1Char", "hook.bt.bwd.BackRefICase", "hook.bt.fwd.BackRef"], t0=t0)
+    return finish(pid, tier, seed, merged, rule, ASSUME_COMMON + ["a clean sanitizer run is not memory safety: red-zone tools miss in-bounds-of-another-object accesses, Miri sees only what it executes", "ASCII entry points are driven with ASCII text only (their documented domain)", "UTF-16/UCS-2 entry points (counters c06u16.*): fixed corpus + seeded structured patterns x u16 texts made of the pattern's characters, their surrogate halves and unrelated surrogates x every start offset incl. inside a pair; no panic, ranges inside the slice and increasing, termination when the reference search is cheap"], extra_cov=extra, required=["ranges_checked", "hook.bt.bwd.ByteSeq1to4", "hook.pop.GreedyLoop1Char", "hook.pop.NonGreedyLoop1Char", "hook.bt.bwd.BackRefICase", "hook.bt.fwd.BackRef", "c06u16.robust_cases_with_start_inside_a_pair"], t0=t0)
 
 
 def check_c19(tier, seed, replay=None):
